@@ -343,7 +343,7 @@ func apiSnapshot(d []byte) string {
 	fmt.Fprintf(&sb, "%d %v|", p, err == nil)
 	fmt.Fprintf(&sb, "%v|", rjson.Valid(d, &buf))
 	v, p, err := rjson.ReadValue(d)
-	fmt.Fprintf(&sb, "%v %d %v|", v, p, err == nil)
+	fmt.Fprintf(&sb, "%s %d %v|", canon(v), p, err == nil)
 	f, p, err := rjson.ReadFloat64(d)
 	fmt.Fprintf(&sb, "%v %d %v|", f, p, err == nil)
 	i, p, err := rjson.ReadInt64(d)
@@ -374,11 +374,15 @@ func apiSnapshot(d []byte) string {
 	var str string
 	p, err = rjson.DecodeString(d, &str, nil)
 	fmt.Fprintf(&sb, "%q %d %v|", str, p, err == nil)
-	if m, ok := v.(map[string]interface{}); ok {
-		fmt.Fprintf(&sb, "%v|", rjson.StdLibCompatibleMap(m))
-	}
-	if a, ok := v.([]interface{}); ok {
-		fmt.Fprintf(&sb, "%v|", rjson.StdLibCompatibleSlice(a))
+	// (when two keys of one object collide after replacement the winner depends on Go's map
+	// iteration order: not a race, and excluded by C17; such documents are not printed)
+	if !keyCollision(d) {
+		if m, ok := v.(map[string]interface{}); ok {
+			fmt.Fprintf(&sb, "%s|", canon(rjson.StdLibCompatibleMap(m)))
+		}
+		if a, ok := v.([]interface{}); ok {
+			fmt.Fprintf(&sb, "%s|", canon(rjson.StdLibCompatibleSlice(a)))
+		}
 	}
 	fmt.Fprintf(&sb, "%q|", rjson.StdLibCompatibleString(string(d)))
 	uc, p, err := rjson.UnescapeStringContent(d, nil)
